@@ -11,7 +11,7 @@ TB = [
 
 PIECES = ["a", "Z9", " ", "  ", "\n", "'", '"', "\\", "{{ 1 + 1 }}", "{% if x %}", "{# c #}", "{{", "}}", ": ", "- ", " #", "#", "[a]", "{a: b}", "&a", "*a",
           "!t", "|", ">", "%", "@", "$HOME", ";", "&&", "`id`", "$(id)", "007", "1e3", "7", "true", "null", "~", "é✓", "k: v", "-", "x=y", "\t", '["a", "b"]', '"s"', "{}", "[]"]
-FIXED = ['["-rf", "/"]', "[]", '["x"]', '{"a": 1}', '"quoted"', "", " ", "\n", "hello", "hello\n", " lead", "trail ", "007", "true", "null", "~", "k: v", "{{ 1 + 1 }}", "[1, 2]", "{a: b}", "a: b: c",
+FIXED = ["OMIT_THIS_VARIABLE", "__omit_place_holder__", "omit", "{{ omit }}x", '["-rf", "/"]', "[]", '["x"]', '{"a": 1}', '"quoted"', "", " ", "\n", "hello", "hello\n", " lead", "trail ", "007", "true", "null", "~", "k: v", "{{ 1 + 1 }}", "[1, 2]", "{a: b}", "a: b: c",
          "- x", "# c", "'q'", '"dq"', "$(id)", "`id`", "a;b && c", "é✓", "1e3", "0x1F", "no", "line1\nline2", "tab\there", "--", "-n", "*", "?", "a  b"]
 
 
